@@ -5,6 +5,7 @@ import (
 	"errors"
 	"fmt"
 	"io"
+	"net/mail"
 	"os"
 
 	"github.com/inbucket/inbucket/v3/pkg/config"
@@ -214,6 +215,10 @@ func (h *Host) handleBeforeMessageStored(msg event.InboundMessage) *event.Inboun
 	}
 	defer h.pool.putState(ls)
 
+	// The script may modify addresses in place; give it private copies so that a handler which
+	// fails or declines to answer leaves the message being delivered untouched.
+	msg = cloneInboundMessage(msg)
+
 	logger.Debug().Msgf("Calling Lua function with %+v", msg)
 	if err := ls.CallByParam(
 		lua.P{Fn: ib.Before.MessageStored, NRet: 1, Protect: true},
@@ -237,6 +242,24 @@ func (h *Host) handleBeforeMessageStored(msg event.InboundMessage) *event.Inboun
 	}
 
 	return result
+}
+
+// cloneInboundMessage returns a copy of msg that shares no mutable state with it.
+func cloneInboundMessage(msg event.InboundMessage) event.InboundMessage {
+	msg.Mailboxes = append([]string(nil), msg.Mailboxes...)
+	if msg.From != nil {
+		from := *msg.From
+		msg.From = &from
+	}
+	to := make([]*mail.Address, len(msg.To))
+	for i, addr := range msg.To {
+		if addr != nil {
+			c := *addr
+			to[i] = &c
+		}
+	}
+	msg.To = to
+	return msg
 }
 
 // Common preparation for calling Lua functions.
